@@ -369,6 +369,38 @@ fn nanobind_position_probe(rep: &mut Report) {
 /// once per slice field with the edge arrays of every lifetime that field must outlive; the arena that owns the wasm
 /// buffer must then be reachable from *each* of those arrays (that is what keeps the buffer alive while any holder
 /// of the array lives), whatever calls came before.  Executed in Node on the runtime file as generated.
+
+/// A parameter spelled `&'x Self` on a type with a lifetime parameter implies `'a: 'x` just like `&'x Cursor<'a>`:
+/// either the method is refused for not restating the bound, or — when it is restated — the receiver (which carries
+/// `'a`) is on the `'x` edges of what is returned.  Accepting the unrestated form would lose the receiver.
+fn self_ref_edges_probe(rep: &mut Report) {
+    let src = |bound: &str| format!("#[diplomat::bridge]\nmod ffi {{\n    #[diplomat::opaque]\n    pub struct Token(u8);\n    #[diplomat::opaque]\n    pub struct Cursor<'a>(&'a Token);\n    impl<'a> Cursor<'a> {{\n        pub fn first_of<'x>(&self, other: &'x Self) -> &'x Token {bound} {{ unimplemented!() }}\n    }}\n}}\n");
+    for backend in ["js", "dart", "kotlin"] {
+        for (what, s) in [("unrestated", src("")), ("restated", src("where 'a: 'x"))] {
+            let o = tool::run_backend(&s, backend);
+            rep.oracle_runs += 1;
+            rep.count("probe:self-ref-edges");
+            if !o.lowering_errors.is_empty() {
+                if what == "restated" { rep.oracle_fail(&format!("(c04 probe self-ref-edges {backend} {what})"), "a method that restates the implied bound is refused", json!({"errors": o.lowering_errors})); }
+                continue;
+            }
+            if !o.ok() { continue; }
+            let text: String = o.files.iter().filter(|(k, _)| k.contains("Cursor")).map(|(_, v)| tool::norm_ws(v)).collect::<Vec<_>>().join(" ");
+            // the edge list of 'x in the generated method: `xEdges = [...]`
+            let edges = if backend == "kotlin" {
+                // `val selfEdges: List<Any> = listOf(this) + listOf(other)` in the method body
+                text.find("val selfEdges: List<Any> = ").map(|p| { let r = &text[p + 27..]; r[..r.find(" val ").unwrap_or(r.len().min(80))].to_string() })
+            } else {
+                text.find("xEdges = [").map(|p| { let r = &text[p + 10..]; r[..r.find(']').unwrap_or(r.len())].to_string() })
+            };
+            match edges {
+                Some(e) if e.contains("this") && e.contains("other") => {}
+                other => rep.oracle_fail(&format!("(c04 probe self-ref-edges {backend} {what})"), "the value returned with lifetime 'x does not hold on to both the receiver and the parameter it may borrow from", json!({"backend": backend, "x_edges": other, "source": s})),
+            }
+        }
+    }
+}
+
 fn js_arena_probe(rep: &mut Report, seed: u64) {
     let o = tool::run_backend("#[diplomat::bridge]\nmod ffi { #[diplomat::opaque] pub struct O; impl O { pub fn f<'a>(&'a self, s: &'a DiplomatStr) -> &'a DiplomatStr { s } } }", "js");
     let Some(rt) = o.files.get("diplomat-runtime.mjs") else { rep.notes.push("js arena probe: no diplomat-runtime.mjs".into()); return };
@@ -817,6 +849,7 @@ pub fn main(args: &[String]) {
     nested_struct_probe(&mut rep);
     dart_slice_view_probe(&mut rep);
     js_arena_probe(&mut rep, a.seed);
+    self_ref_edges_probe(&mut rep);
     { let mut r2 = Rng::new(a.seed ^ 0x6e65); nested_random(&mut rep, &mut r2, if thorough { 400 } else { 40 }); }
     let n = if a.n > 0 { a.n } else if thorough { 20000 } else { 2000 };
     let sigs: Vec<Sig> = (0..n).map(|i| gen_sig(&mut rng, if thorough && i % 4 == 0 { 6 } else { 4 }, true)).collect();
